@@ -63,7 +63,7 @@ class Tr:
 
     def lean_ty(self, var):
         t = self.typ(var)
-        return "Int" if t == "Len" else t
+        return "Int" if t == "Len" else "List UInt8" if t == "Bytes" else t
 
     # ---------------------------------------------------------------- expressions: return (text, type) with type in Int/Nat/Bool/lit
     def lit(self, v, want):
@@ -79,7 +79,7 @@ class Tr:
             return t
         if ty == "Seq" and want == "Int":
             return t
-        if (ty, want) in (("Len", "Int"), ("Int", "Len")):
+        if (ty, want) in (("Len", "Int"), ("Int", "Len"), ("Bytes", "List UInt8"), ("List UInt8", "Bytes")):
             return t
         if ty == "Nat" and want == "Int":
             return "(%s : Int)" % t
@@ -99,6 +99,16 @@ class Tr:
         return "Int"
 
     def expr(self, n):
+        if isinstance(n, ast.IfExp):
+            a, b = self.expr(n.body), self.expr(n.orelse)
+            ty = a[1] if a[1] == b[1] else self.join(a, b)
+            return ("(if %s then %s else %s)" % (self.cond(n.test), self.coerce(a, ty), self.coerce(b, ty)), ty)
+        if isinstance(n, ast.Attribute) and n.attr == "value":
+            ch = self.attr_chain(n)
+            if not (ch and (self.var_of(ch) in self.fn.state or self.var_of(ch) in self.assigned_attrs)):
+                inner = self.expr(n.value)
+                if inner[1] == "Bytes":            # the value of an enum member whose values are byte strings
+                    return inner
         if isinstance(n, ast.Constant) and n.value == b"":
             return ("(0 : Int)", "Len")
         if isinstance(n, ast.List) and not n.elts:
@@ -131,6 +141,10 @@ class Tr:
             var = self.var_of(chain)
             if var in self.fn.state or var in self.assigned_attrs:
                 return (var, "Seq" if var in self.fn.seq else self.typ(var))
+            obj = self.const_obj(chain)
+            val = getattr(obj, "value", obj) if not isinstance(obj, (int, bytes)) else obj
+            if isinstance(val, bytes) and not isinstance(obj, (int, bytes)):
+                return ("([%s] : List UInt8)" % ", ".join("0x%02x" % c for c in val), "Bytes")
             return (self.const(chain), "lit")
         if isinstance(n, ast.UnaryOp):
             if isinstance(n.op, ast.USub):
@@ -205,6 +219,16 @@ class Tr:
             return "true" if t else "false"
         return "(%s != 0)" % t
 
+    def const_obj(self, chain):
+        try:
+            head, *rest = chain.split(".")
+            v = self.fn.obj.__self_class__ if head in ("self", "cls") else self.ns[head]
+            for r in rest:
+                v = getattr(v, r)
+            return v
+        except Exception as e:
+            raise Unsupported("cannot resolve constant %s: %s" % (chain, e))
+
     def const(self, chain):
         try:
             head, *rest = chain.split(".")
@@ -250,6 +274,28 @@ class Tr:
             args = " ".join(self.coerce(self.expr(a), "Int") for a in n.args)
             return ("(%s %s %s)" % (self.callees[f.attr][0], recv, args), self.callees[f.attr][2])
         raise Unsupported("call %s" % ast.dump(f)[:100])
+
+    def pack_fields(self, pk):
+        """`struct.pack(FMT, a, b, ...)` with a constant big-endian format -> the Lean list of packed fields, or None"""
+        if not (isinstance(pk, ast.Call) and self.attr_chain(pk.func) == "struct.pack" and pk.args
+                and isinstance(pk.args[0], ast.Constant) and isinstance(pk.args[0].value, str)):
+            return None
+        fmt = pk.args[0].value
+        if fmt[:1] not in ">!":
+            raise Unsupported("struct format %r is not big-endian" % fmt)
+        import re as _re
+        toks = _re.findall(r"(\d*)([a-zA-Z])", fmt[1:])
+        if "".join(a + b for a, b in toks) != fmt[1:] or len(toks) != len(pk.args) - 1:
+            raise Unsupported("struct format %r" % fmt)
+        fields = []
+        for (cnt, ch), a in zip(toks, pk.args[1:]):
+            if ch == "s":
+                fields.append("packS %d %s" % (int(cnt or 1), self.coerce(self.expr(a), "List UInt8")))
+            elif ch in "HBbhlqQL" and not cnt:
+                fields.append("packField '%s' %s" % (ch, self.coerce(self.expr(a), "Int")))
+            else:
+                raise Unsupported("struct format %r" % fmt)
+        return "(packAll [%s])" % ", ".join(fields)
 
     def raising_call(self, n):
         """`self.__class__(e)` / `cls(e)`: the constructor, which may raise - only allowed as the operand of `return`"""
@@ -346,6 +392,16 @@ class Tr:
             args = ", ".join(self.coerce(self.expr(a), "Int") for a in pk.args[1:])
             return ("%smatch structPack %s [%s] with\n%s| .error e => .error e\n%s| .ok bs =>\n%s  let out : List UInt8 := out ++ bs\n%s"
                     % (pad, json.dumps(fmt[1:]), args, pad, pad, pad, self.block(rest, ind + 1)))
+        if isinstance(s, (ast.Assign, ast.AugAssign)) and self.pack_fields(s.value) is not None:
+            # `x = struct.pack(...)` / `x += struct.pack(...)`: struct.error propagates, otherwise the bytes are bound / appended
+            tg = s.targets[0] if isinstance(s, ast.Assign) else s.target
+            v = self.target(tg)
+            self.fn.types[v] = "Bytes"
+            if isinstance(s, ast.AugAssign) and not isinstance(s.op, ast.Add):
+                raise Unsupported("augmented assignment of struct.pack other than +=")
+            rhs = "bs" if isinstance(s, ast.Assign) else "%s ++ bs" % v
+            return ("%smatch %s with\n%s| .error e => .error e\n%s| .ok bs =>\n%s  let %s : List UInt8 := %s\n%s"
+                    % (pad, self.pack_fields(s.value), pad, pad, pad, v, rhs, self.block(rest, ind + 1)))
         if isinstance(s, ast.Assign):
             if len(s.targets) != 1:
                 raise Unsupported("multiple assignment")
@@ -355,6 +411,8 @@ class Tr:
                 self.fn.seq.add(v)
             else:
                 self.fn.seq.discard(v)
+            if ev[1] == "Bytes" and isinstance(s.targets[0], ast.Name):
+                self.fn.types[v] = "Bytes"
             e = self.coerce(ev, self.typ(v))
             return "%slet %s : %s := %s\n%s" % (pad, v, self.lean_ty(v), e, self.block(rest, ind))
         if isinstance(s, ast.AugAssign):
@@ -465,6 +523,9 @@ def kernels(C, Z=None):
     ks.append(Fn("FragmentSender_split", f(C.FragmentSender, "build"), [("fuel", "Nat"), ("payload", "Len")], ret=None, state=["self_fragments"], extract=_split_loop,
                  types={"self_fragments": "List Int", "payload": "Len"},
                  doc="FragmentSender.build: the lengths of the fragments the `while` loop cuts a payload of a given length into"))
+    ks.append(Fn("PacketHeader_to_bytes", f(C.PacketHeader, "to_bytes"), [], ret="List UInt8",
+                 types={"self_isServer": "Bool"},
+                 doc="PacketHeader.to_bytes: the 20 header bytes (the first 12 are the AES-GCM nonce), or struct.error"))
     if Z is not None:
         k = Fn("serialize_int", Z.serialize_int, [("stream", "Unit"), ("value", "Int")], state=["out"], types={"out": "List UInt8"}, ret=None,
                doc="serialize_int: width selection and `struct.pack`; state = the bytes written to `stream`")
@@ -479,6 +540,8 @@ READS = {   # read-only attributes that become extra parameters (they are object
     "ack_names": [("hdr_ack", "Int"), ("hdr_ack_bits", "Nat")],
     "stale_datagram": [("self_bitfield_pkt_current_seqnum", "Int"), ("self_bitfield_pkt_nbits", "Nat"), ("pkt_hdr_seq", "Int")],
     "serialize_int": [("out", "List UInt8")],
+    "PacketHeader_to_bytes": [("self_isServer", "Bool"), ("self_ctime", "Int"), ("self_seq", "Int"), ("self_ack", "Int"),
+                              ("self_pkt_type_value", "Int"), ("self_length", "Int"), ("self_count", "Int"), ("self_ack_bits", "Int")],
     "FragmentSender_split": [("Packet_MAX_PAYLOAD_SIZE", "Int"), ("Packet_MAX_FRAGMENT_SIZE", "Int")],
 }
 
@@ -493,9 +556,7 @@ namespace Mpgs.Gen
 inductive Err | valueError | duplication | typeError | structError | fuel
   deriving DecidableEq, Repr
 
-'''
-
-STRUCT = '''/-- big-endian image of `n` in `w` bytes -/
+/-- big-endian image of `n` in `w` bytes -/
 def beBytes : Nat → Nat → List UInt8
   | 0, _ => []
   | w + 1, n => UInt8.ofNat (n / 256 ^ w % 256) :: beBytes w n
@@ -524,7 +585,21 @@ def structPackL : List Char → List Int → Except Err (List UInt8)
 
 def structPack (fmt : String) (args : List Int) : Except Err (List UInt8) := structPackL fmt.toList args
 
+/-- the `Ns` field of `struct.pack`: the bytes, cut or zero-padded to N -/
+def packS (n : Nat) (b : List UInt8) : Except Err (List UInt8) := .ok (b.take n ++ List.replicate (n - b.length) 0)
+
+/-- `struct.pack` field by field: the first field that does not fit raises -/
+def packAll : List (Except Err (List UInt8)) → Except Err (List UInt8)
+  | [] => .ok []
+  | .error e :: _ => .error e
+  | .ok a :: rest =>
+    match packAll rest with
+    | .error e => .error e
+    | .ok b => .ok (a ++ b)
+
 '''
+
+STRUCT = ''''''
 
 DIFFV = '''/-- value of `SeqNum.diff` (it cannot raise: every path of the translated body ends in `.ok`; `Equiv.lean` proves that) -/
 def SeqNum_diffV (self other : Int) : Int :=
@@ -542,6 +617,7 @@ GROUPS = {      # group -> (kernels, imports): one Lean file and one equivalence
     "Size": (["Packet_overhead", "Packet_setMTU"], ["Seq"]),
     "Serial": (["serialize_int"], ["Seq"]),
     "Frag": (["FragmentSender_split"], ["Seq"]),
+    "Header": (["PacketHeader_to_bytes"], ["Seq"]),
 }
 
 
@@ -597,8 +673,6 @@ def generate(repo):
             out.append(PRELUDE)
         else:
             out.append("/- GENERATED by harness/translate.py from the working tree under test - do not edit. -/\nnamespace Mpgs.Gen\n\n")
-        if g == "Serial":
-            out.append(STRUCT)
         digests, err = {}, None
         for n in names:
             try:
